@@ -52,7 +52,44 @@ def _state_policy(nodes):
     return pol
 
 
+def run_default_horizon(spec, props):
+    """One scheduled execution with every waiting time equal to `step`: with all optional arguments left out the
+    run must stop at the documented default horizon (SIS simulators: tmax=100, tmin=0)."""
+    EoN, sim = import_eon()
+    A = Acc()
+    fn = spec["fn"]; main = "C02"
+    G = gr.mk(2, [(0, 1)])
+    step = spec["step"]
+    pol = lambda orc, rate, frame: (step, None)
+    call = {"Gillespie_SIS": lambda orc: EoN.Gillespie_SIS(G, 0.3, 0.7, initial_infecteds=[0]),
+            "Gillespie_SIS(positional)": lambda orc: EoN.Gillespie_SIS(G, 0.3, 0.7, [0]),
+            "fast_SIS": lambda orc: EoN.fast_SIS(G, 0.3, 0.7, initial_infecteds=[0]),
+            "fast_SIS(positional)": lambda orc: EoN.fast_SIS(G, 0.3, 0.7, [0])}[fn]
+    # default answers: choice 0 everywhere (any one execution will do: the horizon does not depend on who is chosen)
+    r = run_once(sim, call, (), exp=pol)
+    A.execs = 1; A.evals = 1; A.states.add((fn, step)); A.trans.add((fn, step)); A.nontrivial.add((fn, step))
+    if r.exc is not None:
+        A.add(V(main, fn.split("(")[0], "defaults", "exception", "%s with default arguments raised %r" % (fn, r.exc)))
+        return A.result(props)
+    t = [float(x) for x in np.asarray(r.out[0]).tolist()]
+    A.outcomes.add(tuple(t))
+    if len(r.out) != 3:
+        A.add(V(main, fn.split("(")[0], "defaults", "return_type", "%s with default arguments returned %d arrays, documented: t, S, I" % (fn, len(r.out))))
+    if t[0] != 0:
+        A.add(V(main, fn.split("(")[0], "defaults", "default_tmin", "%s with default arguments starts at t=%r, documented default tmin=0" % (fn, t[0])))
+    if any(x >= 100 for x in t[1:]):
+        A.add(V(main, fn.split("(")[0], "defaults", "default_tmax", "%s with default arguments reports an event at %r, documented default tmax=100" % (fn, max(t))))
+    elif "Gillespie" in fn and len(t) - 1 != int((100 - 1e-9) // step):
+        # Gillespie: every waiting time is `step`, an event is always possible on K2 while someone is infected or susceptible
+        if float(np.asarray(r.out[2])[-1]) > 0:
+            A.add(V(main, fn.split("(")[0], "defaults", "default_tmax", "%s with default arguments and waiting times %r reports %d events (last at %r) although the infection is alive: documented default tmax=100" % (fn, step, len(t) - 1, t[-1])))
+    A.sample = {"spec": spec, "times": t[:6]}
+    return A.result(props)
+
+
 def run_spec(spec, props=("C01", "C02")):
+    if spec.get("kind") == "default_horizon":
+        return run_default_horizon(spec, props)
     EoN, sim = import_eon()
     A = Acc()
     fn = spec["fn"]; sis = fn.endswith("SIS")
@@ -79,6 +116,12 @@ def run_spec(spec, props=("C01", "C02")):
                   recovery_weight=rw, return_full_data=full_)
         if not sis and R0:
             kw["initial_recovereds"] = list(R0)
+        if spec.get("defaults"):
+            # every optional argument left at its documented default (tmin=0, tmax=inf (SIR) / 100 (SIS), no weights, arrays)
+            for k_ in ("tmin", "tmax", "transmission_weight", "recovery_weight"):
+                kw.pop(k_)
+            if not full_:
+                kw.pop("return_full_data")
         return getattr(EoN, fn)(G, tau_a, gamma_a, **kw)
 
     before = mon.snap(G) if "C19" in props else None
@@ -310,6 +353,7 @@ def specs_sir(tier):
                     out.append(dict(fn="Gillespie_SIR", n=n, edges=es, tw=tw, rw=rw, tau=0.3, gamma=0.7, I0=list(I0), R0=[], full=full))
     out += _argtype_specs("Gillespie_SIR")
     out += _tiny_rate_specs("Gillespie_SIR")
+    out += _default_specs("Gillespie_SIR")
     # probability-zero outcomes of the uniform draws (exactly 0.0): zero-weight links/nodes must NEVER be chosen
     for (n, es) in (gr.NAMED["K3"], gr.NAMED["P3"]):
         for I0 in gr.subsets(range(n), 1, 1):
@@ -330,6 +374,19 @@ def _tiny_rate_specs(fn):
                         if fn.endswith("SIS"):
                             sp.update(tmin=0, tmax=3.5)
                         out.append(sp)
+    return out
+
+
+def _default_specs(fn):
+    """calls that leave tmin/tmax/weights/return_full_data at their defaults"""
+    out = []
+    sis = fn.endswith("SIS")
+    for (n, es) in (gr.NAMED["K3"], gr.NAMED["P3"]):
+        for (tau, gamma) in (((0.0, 0.7),) if sis else ((0.3, 0.7), (1.1, 0.0))):     # SIS: documented tmax=100, so only runs that die out
+            for I0 in ([0], [1], [0, 2]):
+                for full in (False, True):
+                    out.append(dict(fn=fn, n=n, edges=es, tw=None, rw=None, tau=tau, gamma=gamma, I0=I0, R0=[], tmin=0,
+                                    tmax=(100 if sis else "inf"), full=full, defaults=True))
     return out
 
 
@@ -387,4 +444,8 @@ def specs_sis(tier):
                                     I0=list(I0), tmin=tmin, tmax=tmax, full=full))
     out += _argtype_specs("Gillespie_SIS")
     out += _tiny_rate_specs("Gillespie_SIS")
+    out += _default_specs("Gillespie_SIS")
+    for f_ in ("Gillespie_SIS", "Gillespie_SIS(positional)"):
+        for st in (30.0, 7.0, 99.5):
+            out.append(dict(kind="default_horizon", fn=f_, step=st))
     return out
